@@ -13,37 +13,42 @@
 (* unreachable).  Every fault plan (set of failing operation indices, and  *)
 (* whether the device stays broken) is printed and injected into the real  *)
 (* entry points.                                                           *)
+(* A failing operation may, as io.Writer and io.Reader permit, have        *)
+(* transferred nothing, part, or all of the data it was asked for together *)
+(* with its error (how = "nothing" | "partial" | "all"); the error counts  *)
+(* whatever the byte count says.                                           *)
 (***************************************************************************)
 EXTENDS Integers, Sequences, FiniteSets, TLC, Json, VerifParams
 
 CONSTANTS N, MaxFaults
 
-VARIABLES i, faults, broken, state, err
+VARIABLES i, faults, broken, state, err, how
 
-vars == <<i, faults, broken, state, err>>
+vars == <<i, faults, broken, state, err, how>>
 
-Init == i = 0 /\ faults = {} /\ broken = FALSE /\ state = "running" /\ err = FALSE
+Init == i = 0 /\ faults = {} /\ broken = FALSE /\ state = "running" /\ err = FALSE /\ how = "none"
 
 OpOK == /\ state = "running" /\ i < N /\ ~broken
-        /\ i' = i + 1 /\ UNCHANGED <<faults, broken, state, err>>
+        /\ i' = i + 1 /\ UNCHANGED <<faults, broken, state, err, how>>
 
-OpFail(permanent) ==
+OpFail(permanent, h) ==
         /\ state = "running" /\ i < N /\ (broken \/ Cardinality(faults) < MaxFaults)
         /\ i' = i + 1 /\ faults' = faults \cup {i} /\ broken' = (broken \/ permanent)
+        /\ how' = (IF how = "none" THEN h ELSE how)
         /\ state' = "panicking" /\ UNCHANGED err
 
 (* a transient failure that the library swallowed would continue here; the *)
 (* intended protocol has no such step                                      *)
 Recover == /\ state = "panicking" /\ state' = "returned" /\ err' = TRUE
-           /\ UNCHANGED <<i, faults, broken>>
+           /\ UNCHANGED <<i, faults, broken, how>>
 
 Finish == /\ state = "running" /\ i = N /\ state' = "returned"
-          /\ UNCHANGED <<i, faults, broken, err>>
+          /\ UNCHANGED <<i, faults, broken, err, how>>
 
-Next == OpOK \/ OpFail(TRUE) \/ OpFail(FALSE) \/ Recover \/ Finish
+Next == OpOK \/ (\E h \in {"nothing", "partial", "all"} : OpFail(TRUE, h) \/ OpFail(FALSE, h)) \/ Recover \/ Finish
 
 Reported == state = "returned" /\ faults # {} => err
 NoEscape == state # "escaped"
 Emit == state = "returned" /\ faults # {} =>
-          PrintT("@@" \o ToJson([n |-> N, at |-> faults, permanent |-> broken]))
+          PrintT("@@" \o ToJson([n |-> N, at |-> faults, permanent |-> broken, how |-> how]))
 =============================================================================
